@@ -1178,12 +1178,12 @@ def uncovered():
 
 
 SUBCHECKS = [
-    SubCheck("records", _records_case(), oracle_records, quick=8000, thorough=240000, shards_quick=8, shards_thorough=16,
+    SubCheck("records", _records_case(), oracle_records, quick=6000, thorough=240000, shards_quick=8, shards_thorough=16,
              essential={"wide_gt64": 0.1, "qudit": 0.2, "zero_reps": 0.04, "multi_instance": 0.08, "int_overflows_int64": 0.05}),
-    SubCheck("digits", _digits_case(), oracle_digits, quick=8000, thorough=300000, shards_quick=4, shards_thorough=8,
+    SubCheck("digits", _digits_case(), oracle_digits, quick=6000, thorough=300000, shards_quick=4, shards_thorough=8,
              essential={"mixed": 0.2, "gt64bits": 0.1}),
-    SubCheck("store", _store_case(), oracle_store, quick=2000, thorough=80000, shards_quick=2, shards_thorough=8),
-    SubCheck("samplers", _sampler_case(), oracle_samplers, quick=2400, thorough=100000, shards_quick=6, shards_thorough=16,
+    SubCheck("store", _store_case(), oracle_store, quick=1600, thorough=80000, shards_quick=2, shards_thorough=8),
+    SubCheck("samplers", _sampler_case(), oracle_samplers, quick=2000, thorough=100000, shards_quick=6, shards_thorough=16,
              essential={"multi_resolver": 0.2, "per_program_reps": 0.1, "qudit": 0.1}),
     SubCheck("abstract", None, oracle_abstract, enumerate=lambda tier: [{}], exhaustive_in=("quick", "thorough"), shards_quick=1,
              shards_thorough=1),
